@@ -196,6 +196,6 @@ def replay(ctx, path):
             lines.append("PopFirst")
         else:
             lines.append(" ".join([e["e"]] + [str(e[k]) for k in ("a", "b") if e.get(k, -1) != -1]))
-    t = ctx.drive(drv, lines, "replay")
+    t = ctx.drive(drv, lines + core.fault_line(d), "replay")
     ctx.report(ctx.judge("ListsTrace" if name == "drv_lists" else "SHListTrace", [t]))
     return ctx.finish(rule="replay of " + path)
